@@ -128,6 +128,8 @@ def run(ctx: Ctx) -> Collector:
         for e in s.events:
             if e.kind == "bind":
                 continue        # the value is classified where it is used
+            if e.kind == "call" and e.term[0] == "call" and e.term[1][0] == "glob" and e.term[1][1] in ("min", "max", "sum", "len", "int", "float", "round", "abs", "sorted", "list", "tuple"):
+                continue        # a pure computation: likewise (the call is part of the expression that uses it)
             env = typer.event_env(fi, e)
             for sub, anc, env2 in _walk(e.term, (), env, typer):
                 kind = _is_proj(sub, env2, typer)
